@@ -447,6 +447,94 @@ def rule_r4(chk, F):
             r.observe("%s walked without map: %s" % (v, NOMAP_OK.get(v, "?")))
 
 
+def rule_r5(chk, F, rid="C10.R5"):
+    r = chk.rule(rid, "a trap call is never the last instruction of a code object: after the deferred bailout "
+                           "stubs a non-call instruction is emitted, so the return address (where the source position "
+                           "is recorded) lies inside the function and cannot resolve to the next code object")
+    cg = CallGraph(F, libs=["dora_cannon_compiler", "dora_asm"], bins=[])
+    eb = [p for p in cg.bodies if p.endswith("masm::MacroAssembler::emit_bailouts")]
+    if r.anchor("MacroAssembler::emit_bailouts", eb):
+        B = cg.body(eb[0])
+        traps = B.calls_to("masm::MacroAssembler::trap")
+        asm_insn = {p for p in cg.bodies if p.startswith("dora_asm::x64::AssemblerX64::")}
+        call_insn = {"dora_asm::x64::AssemblerX64::call_rel32", "dora_asm::x64::AssemblerX64::call_r"}
+        # masm methods that emit at least one machine instruction and never a call
+        emitters = set()
+        for p in cg.bodies:
+            if p.startswith(CC + "masm::") and "MacroAssembler" in p and p not in eb:
+                reach = cg.reachable_from([p], stop=lambda x: x.startswith("dora_asm::"))
+                if (reach & asm_insn) and not (reach & call_insn):
+                    emitters.add(p)
+        r.anchor("emit_bailouts: trap call", traps)
+        if traps:
+            pads = [x for x in B.calls if x.name in emitters]
+            rets = set(B.exits())
+            t = traps[0]
+            # `if bailouts.len() > 0 { pad }` after `for b in &bailouts { trap }`: the empty edge is infeasible
+            # once a trap was emitted — recognised only when the guard tests the length/emptiness of the very
+            # collection the trap loop iterates over
+            from rules.c04 import base_local
+            defs = cfg.simple_defs(B)
+            loop_src = set()
+            for x in B.calls:
+                if x.name and (x.name.endswith("::iter") or x.name.endswith("into_iter")) and x.args:
+                    loop_src.add(base_local(B, x.args[0], defs))
+            infeasible = set()
+            for sb in range(B.n):
+                tt = B.blocks[sb]["t"]
+                if tt[0] != "switch" or tt[1][0] not in ("c", "m"):
+                    continue
+                o = cfg.origin(B, tt[1], defs)
+                lencall = None
+                empty_edge = None
+                if o[0] == "bin" and o[1] in ("Gt", "Ne"):
+                    a, b = o[2], o[3]
+                    if b[0] == "k" and b[1].get("v") == 0 and a[0] in ("c", "m"):
+                        oa = cfg.origin(B, a, defs)
+                        if oa[0] == "call" and last(cfg.callee_name(cfg.callee_of(oa[1]["f"])) or "") == "len":
+                            lencall = oa[1]
+                            empty_edge = dict((v, bb) for v, bb in tt[2]).get(0)
+                elif o[0] == "call" and last(cfg.callee_name(cfg.callee_of(o[1]["f"])) or "") == "is_empty":
+                    lencall = o[1]
+                    empty_edge = tt[3]
+                if lencall is not None and empty_edge is not None and lencall["a"]:
+                    if base_local(B, lencall["a"][0], defs) in loop_src:
+                        infeasible.add(empty_edge)
+            leak = B.reachable_from_succ(t.block, avoid={x.block for x in pads} | infeasible) & rets
+            r.instance("emit_bailouts:instruction-after-last-trap", sample={"pads": [last(x.name) for x in pads]})
+            if leak:
+                r.violation(eb[0] + ":trap-call-can-end-the-code-object",
+                            "after the last bailout stub no further instruction is emitted on some path: when the "
+                            "code size is a multiple of the alignment (and no constants follow) the trap's return "
+                            "address equals the end of the function — its position record lies outside the function "
+                            "and resolves to the next code object (wrong first stack-trace frame)", B.file)
+    D = F.dora()
+    for f, pad in (("pkgs/boots/codegen/x64.dora", ("self.asm.nop", "self.asm.int3")),
+                   ("pkgs/boots/codegen/arm64.dora", ("self.asm.brk", "self.asm.nop"))):
+        t = D.get(f)
+        if t is None:
+            continue
+        fin = [x for x in doraq.functions(t, f) if x.name == "finalize" and x.body is not None]
+        if not r.anchor(f + " finalize", fin):
+            continue
+        cs = [c for c in direct_calls_in_block(fin[0].body)]
+        idx_d = [i for i, c in enumerate(cs) if c.callee == "self.emit_deferred_code"]
+        idx_p = [i for i, c in enumerate(cs) if c.callee in pad]
+        r.instance("%s:finalize:pad-after-deferred-code" % f, sample={"calls": [c.callee for c in cs][:8]})
+        if not idx_d or not idx_p or not any(i > idx_d[0] for i in idx_p):
+            r.violation("%s::finalize:no-instruction-after-deferred-code" % f,
+                        "finalize() emits the deferred trap stubs but no unconditional padding instruction after them",
+                        fin[0].where())
+
+
+def direct_calls_in_block(block):
+    out = []
+    for st in doraq.nodes(block):
+        out += direct_calls(st)
+    out.sort(key=lambda c: c.line)
+    return out
+
+
 def run(chk, F):
     exempt = rule_r1(chk, F) or {}
     rule_r1b(chk, F)
@@ -458,6 +546,7 @@ def run(chk, F):
     if c10_metadata is not None:
         c10_metadata.run_metadata(chk, F, rid="C10.R3")
     rule_r4(chk, F)
+    rule_r5(chk, F)
     chk.assumptions += [
         "decides the pairing call → stack map (and the record layouts); that a map names exactly the live "
         "reference slots is value-level liveness and is not decided; disjointness of code ranges is a link-time fact",
